@@ -18,6 +18,8 @@ use std::{
 use crate::printer::{Conn, Out, ReqRecord, Script, Server};
 
 pub struct SeenConn {
+    /// position in accept order (handlers finish in any order; histories are judged in accept order)
+    pub seq: u64,
     pub req: ReqRecord,
     pub script_key: Option<u32>,
     pub fault_hit: bool,
@@ -59,7 +61,7 @@ pub enum Hangup {
 
 /// Serve one connection over any byte stream; `raw` is the underlying socket (timeouts, shutdown, RST).
 pub fn serve<S: Read + Write>(stream: &mut S, raw: &TcpStream, scripts: &BTreeMap<u32, Script>, stop: &AtomicBool, key_by_op: bool) -> (SeenConn, Hangup) {
-    let mut seen = SeenConn { req: ReqRecord::default(), script_key: None, fault_hit: false, reset_fired: false, app_bytes: 0, handshake_error: None };
+    let mut seen = SeenConn { seq: 0, req: ReqRecord::default(), script_key: None, fault_hit: false, reset_fired: false, app_bytes: 0, handshake_error: None };
     let mut conn = Conn::new();
     let _ = raw.set_read_timeout(Some(Duration::from_millis(50)));
     let _ = raw.set_nodelay(true);
@@ -212,15 +214,19 @@ impl TcpPrinter {
         let scripts = Arc::new(scripts);
         let (stop2, seen2, handlers2) = (stop.clone(), seen.clone(), handlers.clone());
         let accept = std::thread::Builder::new().name("sim-printer-accept".into()).spawn(move || {
+            let mut seq = 0u64;
             for s in l.incoming() {
                 if stop2.load(Ordering::SeqCst) {
                     break;
                 }
                 let Ok(mut s) = s else { continue };
                 let (scripts, stop3, seen3) = (scripts.clone(), stop2.clone(), seen2.clone());
+                let my_seq = seq;
+                seq += 1;
                 let h = std::thread::Builder::new().name("sim-printer-conn".into()).spawn(move || {
                     let raw = s.try_clone().expect("clone socket");
-                    let (sc, h) = serve(&mut s, &raw, &scripts, &stop3, key_by_op);
+                    let (mut sc, h) = serve(&mut s, &raw, &scripts, &stop3, key_by_op);
+                    sc.seq = my_seq;
                     seen3.lock().unwrap().push(sc);
                     hang_up(&raw, h);
                 });
@@ -232,7 +238,7 @@ impl TcpPrinter {
         Ok(TcpPrinter { port, stop, accept: Some(accept), seen, handlers })
     }
 
-    /// stop accepting, wait for the connection handlers, return what was seen (in completion order)
+    /// stop accepting, wait for the connection handlers, return what was seen in ACCEPT order
     pub fn stop(mut self) -> Vec<SeenConn> {
         // handlers end when their client hangs up; give them a moment before forcing the stop flag
         let t0 = Instant::now();
@@ -252,6 +258,8 @@ impl TcpPrinter {
         for h in hs {
             let _ = h.join();
         }
-        std::mem::take(&mut *self.seen.lock().unwrap())
+        let mut v = std::mem::take(&mut *self.seen.lock().unwrap());
+        v.sort_by_key(|c| c.seq);
+        v
     }
 }
